@@ -3,6 +3,8 @@
 from __future__ import annotations
 
 import ast
+import itertools
+from fractions import Fraction as F
 
 from sa import term as T
 from sa.cfg import CFG
@@ -12,6 +14,7 @@ from sa.load import AnalysisError, Repo, loc
 from sa.report import Run
 from sa.term import Rat
 from sa.units import Unit
+from sa.witness import WitnessInterp, WitnessModel, items_of, sym_scalar
 
 from .common import eq_term, events, returns, show
 
@@ -58,6 +61,64 @@ def omega():
     return 2 * Rat.sym('pi', positive=True) * S('frequency')
 
 
+def call(wi, fi, args, kwargs=None, bound=None):
+    from sa.interp import RaiseSignal
+    try:
+        return 'return', wi.call_function(fi, list(args), dict(kwargs or {}), bound=bound)
+    except RaiseSignal as r:
+        return 'raise', r.exc_type
+
+
+def construct_chopper(wi, wm, cls, b, e, freq, beam=0, phase=0):
+    from sa.interp import RaiseSignal
+    deg = Unit.named('deg')
+    if isinstance(b, tuple):
+        begin = wm.array(wi, [sym_scalar(wi, wm, f'b{k}', deg, v) for k, v in enumerate(b)], 'slit')
+        end = wm.array(wi, [sym_scalar(wi, wm, f'e{k}', deg, v) for k, v in enumerate(e)], 'slit')
+    else:  # a single slit given as 0-d variables
+        begin, end = sym_scalar(wi, wm, 'b0', deg, b), sym_scalar(wi, wm, 'e0', deg, e)
+    axle = make_param(wi, 'axle_position', P(kind='vector', dim='L', dtype='vector3', unit=Unit.named('m')))
+    fields = {'frequency': sym_scalar(wi, wm, 'frequency', Unit.named('Hz'), freq), 'beam_position': sym_scalar(wi, wm, 'beam_position', deg, beam),
+              'phase': sym_scalar(wi, wm, 'phase', deg, phase), 'slit_begin': begin, 'slit_end': end, 'axle_position': axle,
+              'slit_height': None, 'radius': None}
+    try:
+        return 'return', wi.construct(cls, [], fields, None)
+    except RaiseSignal as r:
+        return 'raise', r.exc_type
+
+
+def slit_oracle(b, e):
+    """accept / reject / None (slits exactly touching).  Angles in degrees."""
+    if any(x > y for x, y in zip(b, e, strict=True)):
+        return 'reject'
+    slits = sorted(zip(b, e, strict=True))
+    touching = False
+    for (b0, e0), (b1, e1) in zip(slits, slits[1:], strict=False):
+        if b1 < e0:
+            return 'reject'
+        if b1 == e0:
+            touching = True
+    if slits:
+        last_end = max(y for _, y in slits)
+        if last_end - 360 > slits[0][0]:
+            return 'reject'
+        if last_end - 360 == slits[0][0] and len(slits) > 1:
+            touching = True
+    return None if touching else 'accept'
+
+
+def slit_reason(b, e) -> str:
+    if any(x > y for x, y in zip(b, e, strict=True)):
+        return 'reversed slit'
+    slits = sorted(zip(b, e, strict=True))
+    for (b0, e0), (b1, e1) in zip(slits, slits[1:], strict=False):
+        if b1 < e0:
+            return 'neighbouring slits overlap'
+    if slits and max(y for _, y in slits) - 360 > slits[0][0]:
+        return 'overlap across top-dead-centre'
+    return 'valid slit set'
+
+
 def run(tier: str) -> Run:
     run = Run('C10', tier, 'other',
               'The DiskChopper methods are interpreted on a symbolic chopper for both rotation senses. '
@@ -66,15 +127,18 @@ def run(tier: str) -> Run:
               'direction of rotation and computed in float64 without integer unit conversion; (R2) '
               'open uses slit_begin iff clockwise, close the complementary edge, both with the same '
               'repetition count, and close - open normalises to (end - begin)/|omega| (>= 0 given the '
-              'validated begin <= end); (R3) validation is on every construction path and the '
-              'integer-ratio check (rtol 1e-8) guards the repetition count, which is round(max(q, 1)); '
-              '(R4) the overlap check also compares the last end with the first begin plus one turn; '
-              '(R5) Chopper.from_disk_chopper feeds one pulse frequency to both edges and adds the same '
-              'per-pulse offsets.  "Maximal", "none missing", "once per rotation" are statements about '
-              'produced numbers and are not decided.')
+              'validated begin <= end); (R3) witness-guided interpretation of the validation: over every order type of the '
+              'edges of one and two slits on a grid of angles (deg and rad) _check_edges accepts exactly the slit sets with no '
+              'reversed slit and no overlap, also across top-dead-centre (touching slits: either answer accepted), the '
+              'construction of a DiskChopper runs it, and frequency ratios are accepted iff integer or inverse integer to '
+              '1e-8 with repetition count max(ratio, 1); (R4) the open/close arrays hold exactly one (open, close) pair per '
+              'slit and turn for turns -1 .. n-1, as exact terms, and open < close at the witness; (R5) '
+              'Chopper.from_disk_chopper shifts every pair by k/f_pulse for k = 0 .. npulses-1 and takes the distance from '
+              'the axle position.  That the formula delta_t(theta) describes the physical disk is the documented convention '
+              'and is not derived.')
     repo = Repo()
     run.analysed = {'modules': [MOD, 'tof.chopper_cascade'], 'digest': repo.digest.hexdigest()}
-    run.trusted = ['sa/scipp_model.py', 'sa/cfg.py']
+    run.trusted = ['sa/scipp_model.py', 'sa/witness.py']
 
     # ---- R1 -------------------------------------------------------------------
     r1 = run.rule('R1', 'time offset of an angle at the beam, per rotation sense; float64 without integer unit conversion', 4)
@@ -147,76 +211,161 @@ def run(tier: str) -> Run:
         rep_left = [T.show_atom(T.A(i)) for i in d.atoms() if T.A(i).kind == 'fn' and T.A(i).name == 'arange']
         r2.check(not rep_left, f'same repetitions[{"cw" if cw else "acw"}]', loc(results['time_offset_open'][1]), {'leftover': rep_left}, key=f'reps:{cw}')
 
-    # ---- R3 ---------------------------------------------------------------------------
-    r3 = run.rule('R3', 'validation on every construction path; integer-ratio check guards the repetition count', 6)
-    pfi = repo.func(MOD, 'DiskChopper.__post_init__')
-    texts = stmts(pfi.node)
-    pc = CFG(pfi.node)
-    calls = [norm(c) for _, c in pc.calls(lambda c: True)]
-    top = [norm(s) for s in pfi.node.body]
-    r3.check('_check_edges(self.slit_begin,self.slit_end)' in top and "_require_frequency('frequency',self.frequency)" in top, '__post_init__ validates',
-             loc(pfi), {'statements': top}, key='post-init')
+    # ---- R3: validation and repetition count, decided at witness points ------------------------------
+    r3 = run.rule('R3', 'slit sets are accepted iff no slit is reversed and no two slits overlap on the disk (also across top-dead-centre); '
+                        'frequency ratios are accepted iff integer or inverse integer to 1e-8; repetitions cover turns -1 .. n-1', 100)
     efi = repo.func(MOD, '_check_edges')
-    ec = CFG(efi.node)
-    guards = {norm(g.test): (g, lab, exc) for g, lab, exc in ec.guards()}
-    call_overlap = ec.calls(lambda c: ast.unparse(c.func) == '_check_edge_overlap')
-    ok = 'begin.sizes!=end.sizes' in guards and 'sc.any(begin>end)' in guards and len(call_overlap) == 1 \
-        and norm(call_overlap[0][1]) == '_check_edge_overlap(begin,end)' and call_overlap[0][0] in efi.node.body
-    r3.check(ok, '_check_edges', loc(efi), {'guards': sorted(guards), 'overlap_call': [norm(c) for _, c in call_overlap]}, key='check-edges')
+    grid = (0, 90, 180, 270, 360, 450) if tier != 'thorough' else (-30, 0, 90, 180, 270, 330, 360, 390, 450)
+    bad = {}
+    n_cfg = 0
+    for unit_name in ('deg', 'rad'):
+        unit = Unit.named(unit_name)
+        for n_slits in (1, 2):
+            for combo in itertools.product(grid, repeat=2 * n_slits):
+                if unit_name == 'rad' and n_cfg % 7:
+                    n_cfg += 1
+                    continue
+                b, e = combo[:n_slits], combo[n_slits:]
+                verdict = slit_oracle(b, e)
+                if verdict is None:
+                    continue  # slits exactly touching: either answer is acceptable
+                n_cfg += 1
+                T.reset()
+                wm = WitnessModel()
+                wi = WitnessInterp(repo, wm)
+                scale = F(1) if unit_name == 'deg' else F(355, 113) / 180
+                begin = wm.array(wi, [sym_scalar(wi, wm, f'b{k}', unit, F(v) * scale) for k, v in enumerate(b)], 'slit')
+                end = wm.array(wi, [sym_scalar(wi, wm, f'e{k}', unit, F(v) * scale) for k, v in enumerate(e)], 'slit')
+                kind, res = call(wi, efi, [begin, end])
+                raised = kind == 'raise'
+                if raised != (verdict == 'reject'):
+                    why = slit_reason(b, e)
+                    bad.setdefault(why, {'begin_deg': b, 'end_deg': e, 'unit': unit_name, 'documented': verdict, 'outcome': (kind, res if raised else None)})
+                else:
+                    r3.ok('slit set')
+    for inst in ('valid slit set', 'reversed slit', 'neighbouring slits overlap', 'overlap across top-dead-centre'):
+        r3.check(inst not in bad, inst, loc(efi), bad.get(inst, {'configurations': n_cfg}), key='slits:' + inst)
+    # validation is wired into construction
+    cls = repo.cls(MOD, 'DiskChopper')
+    for label, b, e, want in (('valid', (0, 180), (60, 300), 'return'), ('overlapping', (0, 50), (90, 300), 'raise'), ('across top-dead-centre', (10, 180), (60, 380), 'raise'),
+                             ('reversed 0-d slit', 90, 10, 'raise'), ('valid 0-d slit', 10, 90, 'return')):
+        T.reset()
+        wm = WitnessModel()
+        wi = WitnessInterp(repo, wm)
+        kind, res = construct_chopper(wi, wm, cls, b, e, freq=14)
+        r3.check(kind == want, f'construction validates [{label}]', loc(repo.func(MOD, 'DiskChopper.__post_init__')), {'outcome': (kind, res if kind == 'raise' else None)}, key='post-init')
+    # frequency ratio
     sfi = repo.func(MOD, 'DiskChopper._source_phase_factor')
-    sc_ = CFG(sfi.node)
-    rets = [st for st in sc_.stmt.values() if isinstance(st, ast.Return)]
-    g = [(gg, lab, exc) for gg, lab, exc in sc_.guards() if '_is_int_or_inverse_int' in norm(gg.test)]
-    ok = len(rets) == 1 and len(g) == 1 and g[0][2] == 'ValueError' and sc_.guarded_by(rets[0], g[0][0], g[0][1]) \
-        and norm(g[0][0].test) == 'not_is_int_or_inverse_int(quot,rtol=sc.scalar(1e-08))'
-    r3.check(ok, 'ratio check guards the count', loc(sfi), {'guard': norm(g[0][0].test) if g else None}, key='ratio-guard')
-    texts = stmts(sfi.node)
-    r3.check('returnround(max(quot.value,1))' in texts and 'quot=frequency/pulse_frequency' in texts and 'frequency=abs(self.frequency)' in texts
-             and 'pulse_frequency=pulse_frequency.to(unit=frequency.unit)' in texts, 'repetition count = round(max(|f|/f_pulse, 1))', loc(sfi),
-             {'return': [t_ for t_ in texts if t_.startswith('return')]}, key='count')
-    ifi = repo.func(MOD, '_is_int_or_inverse_int')
-    outs = run_kernel(repo, ifi, {'x': P(dim='ONE', unit=Unit(), positive=False), 'rtol': P(dim='ONE', unit=Unit())})
-    x, rt = S('x'), S('rtol', True)
-    a = Rat.fn('all', T.fn_cmp('<', T.fn_abs(Rat.fn('round', x) - x), rt))
-    b = Rat.fn('all', T.fn_cmp('<', T.fn_abs(Rat.fn('round', 1 / x) - 1 / x), rt))
-    want = T.fn_bool('or', a, b)
-    ok = False
-    got = None
-    for o in outs:
-        ct = getattr(o.value, 'cond_term', None) if o.kind == 'return' else None
-        if isinstance(ct, Rat):
-            got = ct
-    ok = got is not None and eq_term(got, want)
-    r3.check(ok, '_is_int_or_inverse_int', loc(ifi), {'computed': T.show(got) if got is not None else None, 'expected': T.show(want)}, key='ratio-predicate')
-    rep_fi = repo.func(MOD, 'DiskChopper._apply_angle_repetitions')
-    texts = stmts(rep_fi.node)
-    r3.check("repetition_offsets=sc.arange(dim,-1,n_repetitions,unit='rad')*(2*np.pi)" in texts, 'repetitions cover turns -1 .. n-1', loc(rep_fi),
-             {'offsets': [t_ for t_ in texts if t_.startswith('repetition_offsets=')]}, key='repetitions')
+    ratios = [(F(1, 4), 1), (F(1, 3), 1), (F(1, 2), 1), (F(1), 1), (F(2), 2), (F(3), 3), (F(8), 8), (F(1) + F(1, 10 ** 9), 1), (F(2) - F(1, 10 ** 9), 2),
+              (F(3, 2), None), (F(5, 2), None), (F(3, 10), None), (F(2, 3), None), (F(1) + F(1, 10 ** 6), None), (F(2) - F(1, 10 ** 6), None), (F(1, 2) + F(1, 10 ** 6), None)]
+    badq = {}
+    for sign in (1, -1):
+        for q, want_n in ratios:
+            T.reset()
+            wm = WitnessModel()
+            wi = WitnessInterp(repo, wm)
+            kind, ch = construct_chopper(wi, wm, cls, (0,), (60,), freq=sign * 14 * q)
+            if kind != 'return':
+                raise AnalysisError(f'cannot construct the reference chopper: {ch}')
+            fp = sym_scalar(wi, wm, 'fp', Unit.named('Hz'), 14, positive=True)
+            kind, res = call(wi, sfi, [fp], bound=ch)
+            ok = (kind == 'raise' and res == 'ValueError') if want_n is None else (kind == 'return' and res == want_n)
+            if ok:
+                r3.ok('ratio')
+            else:
+                badq.setdefault('accepted ratio' if want_n is not None else 'rejected ratio',
+                                {'frequency/pulse_frequency': str(sign * q), 'documented': 'rejected' if want_n is None else f'{want_n} repetition(s)', 'outcome': (kind, res if not isinstance(res, SObj) else '...')})
+    for inst in ('accepted ratio', 'rejected ratio'):
+        r3.check(inst not in badq, inst, loc(sfi), badq.get(inst, {}), key='ratio:' + inst)
+    # pulse frequency in another unit and non-positive pulse frequencies
+    T.reset()
+    wm = WitnessModel()
+    wi = WitnessInterp(repo, wm)
+    kind, ch = construct_chopper(wi, wm, cls, (0,), (60,), freq=28)
+    fp = sym_scalar(wi, wm, 'fp', Unit.named('kHz'), F(14, 1000), positive=True)
+    kind, res = call(wi, sfi, [fp], bound=ch)
+    r3.check(kind == 'return' and res == 2, 'pulse frequency given in kHz', loc(sfi), {'outcome': (kind, res)}, key='ratio:unit')
 
-    # ---- R4 ------------------------------------------------------------------------------
-    r4 = run.rule('R4', 'slit overlap is checked between neighbours and across top-dead-centre', 2)
-    ofi = repo.func(MOD, '_check_edge_overlap')
-    oc = CFG(ofi.node)
-    og = oc.guards()
-    neigh = [g_ for g_, lab, exc in og if '[1:]' in norm(g_.test) and '[:-1]' in norm(g_.test) and exc == 'ValueError']
-    wrap = [g_ for g_, lab, exc in og if exc == 'ValueError' and 'begin[0]' in norm(g_.test) and 'end[-1]' in norm(g_.test)]
-    r4.check(len(neigh) >= 1, 'neighbouring slits', loc(ofi), {'guards': [norm(g_.test) for g_, _, _ in og]}, key='overlap:neighbours')
-    full_turn_ok = False
-    if wrap:
-        src = ast.unparse(ofi.node)
-        full_turn_ok = ('360' in src and 'deg' in src) or ('2*np.pi' in src.replace(' ', '')) or ('2*math.pi' in src.replace(' ', ''))
-    r4.check(bool(wrap) and full_turn_ok, 'across top-dead-centre', loc(ofi),
-             {'guards': [norm(g_.test) for g_, _, _ in og], 'needed': 'a check relating end[-1] to begin[0] plus one full turn'}, key='overlap:wrap')
+    # ---- R4: the openings reported are one per slit and turn, turns -1 .. n-1, paired consistently ---------------
+    r4 = run.rule('R4', 'open/close times: one pair per slit and turn for turns -1 .. n-1 (n = max(|f|/f_pulse, 1)), paired slit by slit', 8)
+    ofi, cfi_ = repo.func(MOD, 'DiskChopper.time_offset_open'), repo.func(MOD, 'DiskChopper.time_offset_close')
+    for sign in (1, -1):
+        for q in (F(1, 2), F(1), F(2), F(3)):
+            T.reset()
+            wm = WitnessModel()
+            wi = WitnessInterp(repo, wm)
+            b, e = (10, 100, 200), (40, 150, 330)
+            kind, ch = construct_chopper(wi, wm, cls, b, e, freq=sign * 14 * q, beam=30, phase=400)
+            fp = sym_scalar(wi, wm, 'fp', Unit.named('Hz'), 14, positive=True)
+            k1, to = call(wi, ofi, [], {'pulse_frequency': fp}, bound=ch)
+            k2, tc = call(wi, cfi_, [], {'pulse_frequency': fp}, bound=ch)
+            inst = f'f/f_pulse={sign * q}'
+            if k1 != 'return' or k2 != 'return' or items_of(to) is None or items_of(tc) is None:
+                r4.fail(inst, loc(ofi), {'outcome': (k1, k2)}, key='pairs')
+                continue
+            n = max(int(q), 1)
+            two_pi = 2 * Rat.sym('pi', positive=True)
+            om = two_pi * S('frequency')
+            cw = sign < 0
+            want = []
+            for m in range(-1, n):
+                for k in range(len(b)):
+                    bo, en = S(f'b{k}'), S(f'e{k}')
+                    th_open, th_close = (bo, en) if cw else (en, bo)
+                    rep = two_pi * m
+                    def dt(theta, cw=cw, rep=rep):
+                        ang = S('beam_position') + S('phase') - (theta + rep if cw else theta - rep)
+                        if not cw:
+                            ang = ang + two_pi
+                        return ang / om
+                    want.append((dt(th_open), dt(th_close)))
+            got = [(x.term, y.term) for x, y in zip(items_of(to), items_of(tc), strict=False)]
+            ok = len(items_of(to)) == len(items_of(tc)) == len(want) and all(isinstance(x, Rat) and isinstance(y, Rat) for x, y in got)
+            missing = None
+            if ok:
+                left = list(got)
+                for wo, wc in want:
+                    hit = next((i for i, (x, y) in enumerate(left) if x.eq(wo) and y.eq(wc)), None)
+                    if hit is None:
+                        ok, missing = False, (T.show(wo), T.show(wc))
+                        break
+                    left.pop(hit)
+            val = wm.val
+            order_ok = all(T.evaluate(x, val) < T.evaluate(y, val) for x, y in got) if ok else None
+            r4.check(ok and order_ok, inst, loc(ofi), {'pairs_reported': len(got), 'pairs_expected': len(want), 'first_missing_pair': missing,
+                                                        'open_before_close_at_witness': order_ok}, key='pairs')
 
-    # ---- R5 ---------------------------------------------------------------------------------
-    r5 = run.rule('R5', 'from_disk_chopper: one pulse frequency for both edges, same per-pulse offsets, same flattening', 1)
-    cfi = repo.func('tof.chopper_cascade', 'Chopper.from_disk_chopper')
-    texts = stmts(cfi.node)
-    want = ['tpulse=1.0/pulse_frequency', 'topen=disk_chopper.time_offset_open(pulse_frequency=pulse_frequency)',
-            'tclose=disk_chopper.time_offset_close(pulse_frequency=pulse_frequency)', "offsets=sc.arange('pulse',npulses)*tpulse"]
-    missing = [w for w in want if w not in texts]
-    ret = [t_ for t_ in texts if t_.startswith('returncls(')]
-    ok = not missing and len(ret) == 1 and 'time_open=(offsets+topen).flatten(to=topen.dim)' in ret[0] \
-        and 'time_close=(offsets+tclose).flatten(to=tclose.dim)' in ret[0] and 'distance=sc.norm(disk_chopper.axle_position)' in ret[0]
-    r5.check(ok, 'Chopper.from_disk_chopper', loc(cfi), {'missing': missing, 'return': ret}, key='from-disk-chopper')
+    # ---- R5: expansion over source pulses ----------------------------------------------------------------------
+    r5 = run.rule('R5', 'from_disk_chopper: every opening shifted by k/f_pulse for k = 0 .. npulses-1, open and close shifted alike; distance = |axle position|', 2)
+    ffi = repo.func('tof.chopper_cascade', 'Chopper.from_disk_chopper')
+    for sign in (1, -1):
+        T.reset()
+        wm = WitnessModel()
+        wi = WitnessInterp(repo, wm)
+        kind, ch = construct_chopper(wi, wm, cls, (10, 200), (40, 330), freq=sign * 28, beam=30, phase=400)
+        fp = sym_scalar(wi, wm, 'fp', Unit.named('Hz'), 14, positive=True)
+        k1, to = call(wi, ofi, [], {'pulse_frequency': fp}, bound=ch)
+        k2, tc = call(wi, cfi_, [], {'pulse_frequency': fp}, bound=ch)
+        kind, res = call(wi, ffi, [], {'disk_chopper': ch, 'pulse_frequency': fp, 'npulses': 3})
+        inst = 'clockwise' if sign < 0 else 'anticlockwise'
+        if kind != 'return' or not isinstance(res, SObj) or k1 != 'return' or k2 != 'return':
+            r5.fail(inst, loc(ffi), {'outcome': (kind, res if kind == 'raise' else None)}, key='from-disk-chopper')
+            continue
+        got_o, got_c = items_of(res.attrs.get('time_open')), items_of(res.attrs.get('time_close'))
+        base = [(x.term, y.term) for x, y in zip(items_of(to), items_of(tc), strict=True)]
+        want = [(o + Rat.const(p) / S('fp', True), c + Rat.const(p) / S('fp', True)) for p in range(3) for o, c in base]
+        ok = got_o is not None and got_c is not None and len(got_o) == len(got_c) == len(want)
+        missing = None
+        if ok:
+            left = [(x.term, y.term) for x, y in zip(got_o, got_c, strict=True)]
+            for wo, wc in want:
+                hit = next((i for i, (x, y) in enumerate(left) if isinstance(x, Rat) and x.eq(wo) and y.eq(wc)), None)
+                if hit is None:
+                    ok, missing = False, (T.show(wo), T.show(wc))
+                    break
+                left.pop(hit)
+        dist = res.attrs.get('distance')
+        dist_ok = isinstance(dist, SVar) and isinstance(dist.term, Rat) and dist.term.eq(T.norm(T.Vec.sym('axle_position')))
+        r5.check(ok and dist_ok, inst, loc(ffi), {'windows_reported': len(got_o) if got_o is not None else None, 'windows_expected': len(want),
+                                                   'first_missing_pair': missing, 'distance_is_norm_of_axle_position': dist_ok}, key='from-disk-chopper')
     return run
